@@ -234,3 +234,268 @@ func sortedStrings(m map[string]bool) []string {
 }
 
 func fmtSet(xs []string) string { return fmt.Sprintf("%q", xs) }
+
+// ---------------------------------------------------------------- grammar model
+
+// production is one parsec.And / parsec.OrdChoice call whose first argument
+// is a node builder of the package: the atoms it matches, in order (atoms of
+// Kleene/Many/Maybe sub-productions referenced through a local variable are
+// spliced in place), and the builder.
+type production struct {
+	Kind    string // "And" | "OrdChoice"
+	Builder *types.Func
+	Atoms   []string
+	Pos     token.Pos
+	AllAtom bool // every other argument is an Atom
+}
+
+// productionsOf lists the productions of package p (non-test files), in source order.
+func productionsOf(p *packages.Package) []production {
+	var out []production
+	if p == nil {
+		return out
+	}
+	info := p.TypesInfo
+	for _, f := range p.Syntax {
+		if strings.HasSuffix(p.Fset.Position(f.Pos()).Filename, "_test.go") {
+			continue
+		}
+		for _, d := range f.Decls {
+			fd, ok := d.(*ast.FuncDecl)
+			if !ok || fd.Body == nil {
+				continue
+			}
+			// definitions of local parser variables in this function
+			defs := map[types.Object][]ast.Expr{}
+			ast.Inspect(fd.Body, func(n ast.Node) bool {
+				switch x := n.(type) {
+				case *ast.AssignStmt:
+					if len(x.Lhs) == len(x.Rhs) {
+						for i, l := range x.Lhs {
+							if id, ok := l.(*ast.Ident); ok {
+								if o := info.ObjectOf(id); o != nil {
+									defs[o] = append(defs[o], x.Rhs[i])
+								}
+							}
+						}
+					}
+				case *ast.ValueSpec:
+					for i, nm := range x.Names {
+						if i < len(x.Values) {
+							if o := info.ObjectOf(nm); o != nil {
+								defs[o] = append(defs[o], x.Values[i])
+							}
+						}
+					}
+				}
+				return true
+			})
+			ast.Inspect(fd.Body, func(n ast.Node) bool {
+				call, ok := n.(*ast.CallExpr)
+				if !ok || len(call.Args) < 2 {
+					return true
+				}
+				kind := ""
+				for _, k := range []string{"And", "OrdChoice"} {
+					if isParsecCall(info, call, k) {
+						kind = k
+					}
+				}
+				if kind == "" {
+					return true
+				}
+				bid, ok := call.Args[0].(*ast.Ident)
+				if !ok {
+					return true
+				}
+				bf, ok := info.Uses[bid].(*types.Func)
+				if !ok {
+					return true
+				}
+				pr := production{Kind: kind, Builder: bf, Pos: call.Pos(), AllAtom: true}
+				for _, a := range call.Args[1:] {
+					if ac, ok := a.(*ast.CallExpr); ok && isParsecCall(info, ac, "Atom") && len(ac.Args) >= 1 {
+						pr.Atoms = append(pr.Atoms, stringLit(info, ac.Args[0]))
+						continue
+					}
+					pr.AllAtom = false
+					// an inline repetition, or &x / x: a local sub-production of repetition kind
+					if dc, ok := a.(*ast.CallExpr); ok && (isParsecCall(info, dc, "Kleene") || isParsecCall(info, dc, "Many") || isParsecCall(info, dc, "Maybe")) {
+						pr.Atoms = append(pr.Atoms, atomsOf(info, dc)...)
+						continue
+					}
+					e := a
+					if u, ok := e.(*ast.UnaryExpr); ok && u.Op == token.AND {
+						e = u.X
+					}
+					if id, ok := e.(*ast.Ident); ok {
+						for _, def := range defs[info.ObjectOf(id)] {
+							if dc, ok := def.(*ast.CallExpr); ok && (isParsecCall(info, dc, "Kleene") || isParsecCall(info, dc, "Many") || isParsecCall(info, dc, "Maybe")) {
+								pr.Atoms = append(pr.Atoms, atomsOf(info, dc)...)
+							}
+						}
+					}
+				}
+				out = append(out, pr)
+				return true
+			})
+		}
+	}
+	return out
+}
+
+// funcDeclOf finds the declaration of a function object in p.
+func funcDeclOf(p *packages.Package, fo *types.Func) *ast.FuncDecl {
+	if p == nil || fo == nil {
+		return nil
+	}
+	for _, f := range p.Syntax {
+		for _, d := range f.Decls {
+			if fd, ok := d.(*ast.FuncDecl); ok && p.TypesInfo.Defs[fd.Name] == fo {
+				return fd
+			}
+		}
+	}
+	return nil
+}
+
+// dispatchEntry is one row of a string-keyed dispatch: the key and the first
+// function of the repository referenced by the row (called or taken as a value).
+type dispatchEntry struct {
+	Key    string
+	Target *types.Func
+	Pos    token.Pos
+}
+
+// dispatchTable extracts the string-keyed dispatch of root: rows of map
+// literals with string keys and string cases of switch statements, in root's
+// body, in the package-level variables it reads and in the functions of its
+// own package it calls (one level).
+func dispatchTable(p *packages.Package, root *ast.FuncDecl) []dispatchEntry {
+	var out []dispatchEntry
+	if p == nil || root == nil {
+		return out
+	}
+	info := p.TypesInfo
+	firstFunc := func(n ast.Node) *types.Func {
+		var res *types.Func
+		ast.Inspect(n, func(m ast.Node) bool {
+			if res != nil {
+				return false
+			}
+			if id, ok := m.(*ast.Ident); ok {
+				if fo, ok := info.Uses[id].(*types.Func); ok && fo.Pkg() != nil && strings.HasPrefix(fo.Pkg().Path(), core.Module) {
+					if sig, ok := fo.Type().(*types.Signature); ok && sig.Recv() == nil {
+						res = fo
+					}
+				}
+			}
+			return true
+		})
+		return res
+	}
+	scan := func(n ast.Node) {
+		ast.Inspect(n, func(m ast.Node) bool {
+			switch x := m.(type) {
+			case *ast.CompositeLit:
+				t := info.TypeOf(x)
+				if t == nil {
+					return true
+				}
+				mt, isMap := t.Underlying().(*types.Map)
+				if !isMap {
+					return true
+				}
+				if b, ok := mt.Key().Underlying().(*types.Basic); !ok || b.Info()&types.IsString == 0 {
+					return true
+				}
+				for _, el := range x.Elts {
+					if kv, ok := el.(*ast.KeyValueExpr); ok {
+						if k := stringLit(info, kv.Key); k != "" || isConstExpr(info, kv.Key) {
+							out = append(out, dispatchEntry{k, firstFunc(kv.Value), kv.Pos()})
+						}
+					}
+				}
+				return false
+			case *ast.SwitchStmt:
+				if x.Tag == nil {
+					return true
+				}
+				if b, ok := info.TypeOf(x.Tag).Underlying().(*types.Basic); !ok || b.Info()&types.IsString == 0 {
+					return true
+				}
+				for _, st := range x.Body.List {
+					cc, ok := st.(*ast.CaseClause)
+					if !ok || len(cc.List) == 0 {
+						continue
+					}
+					var target *types.Func
+					for _, s := range cc.Body {
+						if target = firstFunc(s); target != nil {
+							break
+						}
+					}
+					for _, e := range cc.List {
+						if isConstExpr(info, e) {
+							out = append(out, dispatchEntry{stringLit(info, e), target, cc.Pos()})
+						}
+					}
+				}
+				return false
+			}
+			return true
+		})
+	}
+	scan(root.Body)
+	if len(out) > 0 {
+		return out
+	}
+	seen := map[types.Object]bool{}
+	ast.Inspect(root.Body, func(m ast.Node) bool {
+		id, ok := m.(*ast.Ident)
+		if !ok {
+			return true
+		}
+		o := info.Uses[id]
+		if o == nil || seen[o] || o.Pkg() != p.Types {
+			return true
+		}
+		seen[o] = true
+		switch x := o.(type) {
+		case *types.Var:
+			if x.Parent() != p.Types.Scope() {
+				return true
+			}
+			for _, f := range p.Syntax {
+				for _, d := range f.Decls {
+					gd, ok := d.(*ast.GenDecl)
+					if !ok {
+						continue
+					}
+					for _, sp := range gd.Specs {
+						vs, ok := sp.(*ast.ValueSpec)
+						if !ok {
+							continue
+						}
+						for i, nm := range vs.Names {
+							if info.Defs[nm] == o && i < len(vs.Values) {
+								scan(vs.Values[i])
+							}
+						}
+					}
+				}
+			}
+		case *types.Func:
+			if fd := funcDeclOf(p, x); fd != nil && fd != root && fd.Body != nil {
+				scan(fd.Body)
+			}
+		}
+		return true
+	})
+	return out
+}
+
+func isConstExpr(info *types.Info, e ast.Expr) bool {
+	tv, ok := info.Types[e]
+	return ok && tv.Value != nil
+}
